@@ -62,6 +62,9 @@ func randScenario(rnd *rand.Rand, big bool) traceScen {
 			p.API = 0
 		}
 		q.Pkts = append(q.Pkts, p)
+		if !q.Enc && rnd.Intn(8) == 0 {
+			q.Pkts = append(q.Pkts, pktReq{Raw: 1 + rnd.Intn(5), Flush: true})
+		}
 	}
 	s.req = q
 	return s
@@ -106,6 +109,10 @@ func (s *traceScen) events(r *runRes) [][]byte {
 	add(map[string]any{"ev": "start", "enc": r.EncA, "ver": r.VerA, "nonceEnd": r.NonceEnd, "hsEnd": r.HsEnd})
 	for i, w := range r.Writes {
 		p := s.req.Pkts[i]
+		if p.Raw > 0 {
+			add(map[string]any{"ev": "rawpad", "k": p.Raw, "wire": w.Wire})
+			continue
+		}
 		add(map[string]any{"ev": "write", "tp": tpBytes(p.Tp), "len": p.Len, "h": w.Hash, "flush": p.Flush, "err": w.Err, "wire": w.Wire, "trailer": w.Tail})
 	}
 	at := s.cutAt
@@ -176,6 +183,10 @@ func randomTraces(c *core.Ctx, pl *pool, rnd *rand.Rand) error {
 		if err := pl.call(s.req, &base); err != nil {
 			return err
 		}
+		if len(base.Runs) == 1 && (strings.HasPrefix(base.Runs[0].Fail, "panic:") || strings.HasPrefix(base.Runs[0].Fail, "deadlock")) {
+			c.Violate(fmt.Sprintf("trace/enc=%v,ver=%d/fail", s.req.Enc, s.req.Ver), "rpc.PacketConn failed outright: "+base.Runs[0].Fail, map[string]any{"request": s.req})
+			return nil
+		}
 		if len(base.Runs) != 1 || base.Runs[0].Fail != "" || base.Runs[0].HsErrA != "" || base.Runs[0].HsErrB != "" {
 			return fmt.Errorf("trace scenario failed at harness level: %+v", base)
 		}
@@ -216,6 +227,10 @@ func randomTraces(c *core.Ctx, pl *pool, rnd *rand.Rand) error {
 			}
 			for j := range resp.Runs {
 				r := &resp.Runs[j]
+				if strings.HasPrefix(r.Fail, "panic:") || strings.HasPrefix(r.Fail, "deadlock") {
+					c.Violate(fmt.Sprintf("trace/enc=%v,ver=%d/fail@%d", q.Enc, q.Ver, corrs[j].Pos-hsEnd), "rpc.PacketConn failed outright: "+r.Fail, map[string]any{"request": q, "corruption": corrs[j]})
+					return nil
+				}
 				if r.Fail != "" {
 					return fmt.Errorf("trace run failed at harness level: %s", r.Fail)
 				}
